@@ -539,9 +539,11 @@ func (e *Env) fieldAddr(addr Term, ct types.Type, path []int) Val {
 		}
 		if n == len(path)-1 {
 			out = Val{T: u.mkSub(addr, i), Sort: SRef, FBase: addr, FStruct: ct, FIdx: i}
+			e.groundSubFact(out.T)
 			break
 		}
 		addr = u.mkSub(addr, i)
+		e.groundSubFact(addr)
 		ct = si.fields[i].typ
 	}
 	return out
@@ -1051,4 +1053,15 @@ func (e *Env) recordIdx(off, ix Term) {
 		q.Offs = append(q.Offs, off)
 		q.Idx = append(q.Idx, ix)
 	}
+}
+
+// groundSubFact states rootid(sub(r, i)) = rootid(r) for an address built during contract evaluation, unless it
+// mentions a bound variable (then it cannot be asserted as a ground fact).
+func (e *Env) groundSubFact(t Term) {
+	for _, q := range e.qvars {
+		if strings.Contains(t, q) {
+			return
+		}
+	}
+	e.u.subFact(t)
 }
